@@ -349,6 +349,7 @@ pub struct ServerBuilder {
     pub worker_config: ServerWorkerConfig,
 }
 impl<T> Clone for UnboundedSender<T> { #[verifier::external_body] fn clone(&self) -> (r: Self) ensures r.id() == self.id() { unimplemented!() } }
+//@assumes unit=server_misc fns=builder::new,builder::bind,builder::listen,builder::listen_uds,builder::bind_uds,builder::next_token,builder::workers,builder::run,builder::default
 impl ServerBuilder {
     /// what the ServerBuilder guarantees when the server is run (unit server_misc: `wf`): listener k carries token k and
     /// was bound under it; at most 512 workers (more make `Availability` panic: documented)
